@@ -125,3 +125,23 @@ package validatorapi
 //@ func propDataMatchesDuty$1
 //@ props C10
 //@ ensures result == nil ==> d2 != nil && res(1, d1.HashTreeRoot()) == nil && res(1, d2.HashTreeRoot()) == nil && res(0, d1.HashTreeRoot()) == res(0, d2.HashTreeRoot())
+
+// Query side: the datum served to the validator client is the one awaited under exactly the requested key.
+//@ func (c Component) AttestationData
+//@ props C06
+//@ havoc wrapResponse
+//@ callreq c.awaitAttFunc: a2 == uint64(opts.Slot) && a3 == uint64(opts.CommitteeIndex)
+//@ ensures r1 == nil ==> ncalls(c.awaitAttFunc) == 1
+
+//@ func (c Component) AggregateAttestation
+//@ props C06
+//@ havoc wrapResponse
+//@ callreq c.awaitAggAttFunc: a2 == uint64(opts.Slot) && a3 == opts.AttestationDataRoot && a4 == opts.CommitteeIndex
+//@ ensures r1 == nil ==> ncalls(c.awaitAggAttFunc) == 1
+
+//@ func (c Component) SyncCommitteeContribution
+//@ props C06
+//@ havoc wrapResponse
+//@ callreq c.awaitSyncContributionFunc: a2 == uint64(opts.Slot) && a3 == opts.SubcommitteeIndex && a4 == opts.BeaconBlockRoot
+//@ ensures r1 == nil ==> ncalls(c.awaitSyncContributionFunc) == 1
+
